@@ -358,6 +358,11 @@ func gen(r *vh.Rand) string {
 			dnsv = strings.Join(hs, ",")
 		}
 		if method == "GET" {
+			if len(vals) == 1 { // label the oracle with what the single value really decodes to (non-canonical encodings)
+				if d, err := base64.RawURLEncoding.DecodeString(vals[0]); err == nil {
+					w = d
+				}
+			}
 			wf = vh.Hex(w)
 			if r.Chance(1, 12) {
 				body = r.Bytes(r.Range(1, 30)) // a body on a GET is ignored
@@ -365,6 +370,10 @@ func gen(r *vh.Rand) string {
 		}
 	}
 	var orc string
+	if wf == "=" && method == "POST" && len(body) > 8192 {
+		w = body[:8192] // what the code unpacks of an oversized body
+		wf = vh.Hex(w)
+	}
 	if wf == "=" {
 		orc = oracle(body)
 	} else {
